@@ -166,6 +166,12 @@ func main() {
 			res.TimedOut = true
 			break
 		}
+		if work.Hung {
+			// a library call of an earlier run never returned (reported by that run); its goroutine
+			// is still spinning, so this process is finished
+			res.TimedOut = true
+			break
+		}
 		idx := *fStart + i**fStride
 		runSeed := core.Mix(*fSeed, core.MixS(w.Name), idx)
 		tape := core.NewTape(runSeed)
@@ -341,7 +347,7 @@ func writeReplay(env *work.Env, w *work.Workload, v core.Violation, runSeed, idx
 		orig += len(rec[i])
 	}
 	rp.TapeLenOrig = orig
-	if !*fNoShrink && v.Class != "data-race" {
+	if !*fNoShrink && v.Class != "data-race" && v.Class != "does-not-terminate" {
 		best, execs := core.Shrink(rec, v, func(c core.Rec) []core.Violation {
 			r, infra := execute(env, w, runSeed, idx, core.ReplayTape(c), false)
 			if infra != "" {
